@@ -373,6 +373,9 @@ def autograd(ctx) -> None:
     # the adjoint state uses the opposite sign in the exponent: each generator defined in backward, as a polynomial
     from ..algebra import monomials
     from ..model import FuncInfo
+    # the local that holds the step length saved by forward (`dt = ctx.dt`), whatever it is called
+    dt_names = {t.id for st in ast.walk(bwd.node) if isinstance(st, ast.Assign) and util.text(st.value).endswith(".dt")
+                for t in st.targets if isinstance(t, ast.Name)} or {"dt"}
     found = {}
     for blk_owner in ast.walk(bwd.node):
         for fld in ("body", "orelse"):
@@ -395,7 +398,7 @@ def autograd(ctx) -> None:
                     (m, coef), = mons.items()
                     atoms = sorted(show(x).replace(" ", "") for x in m)
                     xname = fi.params[0] if fi.params else "x"
-                    if atoms.count("dt") == 1 and len(atoms) == 3 and xname in atoms and all(x.isidentifier() for x in atoms):
+                    if sum(atoms.count(d_) for d_ in dt_names) == 1 and len(atoms) == 3 and xname in atoms and all(x.isidentifier() for x in atoms):
                         desc = "-" if abs(coef + 1j) < 1e-12 else "+" if abs(coef - 1j) < 1e-12 else f"coefficient {coef}"
                     else:
                         desc = "not c·dt·(H x): " + "·".join(atoms)
